@@ -151,6 +151,15 @@ func (g *Group[K, V]) Do(key K, fn func() (V, error)) (v V, err error, shared bo
 	return c.val, c.err, true
 }
 
+// Forget tells the group to stop sharing the in-flight call of key: callers that
+// arrive from now on start a new call instead of joining this one. Callers that
+// already joined still receive its results.
+func (g *Group[K, V]) Forget(key K) {
+	g.mu.Lock()
+	delete(g.m, key)
+	g.mu.Unlock()
+}
+
 // doCall handles the single call for a key.
 func (g *Group[K, V]) doCall(c *call[V], key K, fn func() (V, error)) {
 	normalReturn := false
